@@ -1,4 +1,5 @@
 import PlushModel
+import PlushProofs.Lib.PrattRoundTrip
 /-!
   C06 — operators, precedence and associativity. The precedence table, the five operator tables and
   the list of tolerant operators are TRANSLATED from /repo (Gen/Precedences.lean, Gen/Operators.lean),
@@ -97,5 +98,79 @@ theorem C06_short_circuit_or (fuel : Nat) (l r : Option Expr) (s s1 : ES) (v : V
 /-- integer division truncates towards zero (Go), e.g. -7 / 2 = -3, and MinInt64 / -1 wraps -/
 example : intsOperator [47] (-7) 2 = .int (-3) ∧ intsOperator [47] 7 (-2) = .int (-3) ∧
     intsOperator [47] minInt (-1) = .int minInt ∧ intsOperator [47] 1 0 = .divZero := by decide
+
+/-! ### Theorem C — Pratt round trip on the parser model (proof in `PlushProofs/Lib/PrattRoundTrip.lean`) -/
+section Pratt
+open P
+
+/-- PRECEDENCE AND ASSOCIATIVITY, FOR EVERY EXPRESSION TREE. Take any tree over atoms (identifiers, integer,
+    string and boolean literals) and registered binary operators; print it with the minimal parentheses that the
+    precedence table and LEFT associativity require (left operand at the operator's level, right operand one level
+    tighter); put the tokens anywhere in a token array, followed by a token of lowest binding power. Then
+    `parseExpression` at the lowest precedence returns exactly that tree, leaves the cursor on the expression's last
+    token and changes nothing else. Since the grouping of the printed form is unique, the parser's grouping IS the
+    documented one: tighter operators first, equal levels left to right, `&&`/`||` on one level (table `C06_table`). -/
+theorem C06_pratt_round_trip (e : PE) (s : PS) (f : Nat) (hwf : e.WF) (eo : EofOK s)
+    (hat : At s s.pos (pr (Gen.LOWEST + 1) e))
+    (hnext : precOf (tokAt s (s.pos + (pr (Gen.LOWEST + 1) e).length)).type = Gen.LOWEST)
+    (hna : (tokAt s (s.pos + (pr (Gen.LOWEST + 1) e).length)).type ≠ .ASSIGN)
+    (hf : 14 + P.C * rem s ≤ f) :
+    parseExpression f Gen.LOWEST s = .ok (some e.toExpr, s.at (s.pos + (pr (Gen.LOWEST + 1) e).length - 1)) :=
+  parse_print e s f hwf eo hat hnext hna hf
+
+/-- flat left-associative chain: a o1 b o2 c with equal binding power prints without parentheses as the LEFT-nested tree -/
+theorem C06_print_left_assoc (o1 o2 lp rp a b c : Token) (xa xb xc : Expr) (h : precOf o1.type = precOf o2.type)
+    (hl : Gen.LOWEST < precOf o2.type) :
+    pr (Gen.LOWEST + 1) (.bin o2 lp rp (.bin o1 lp rp (.atom a xa) (.atom b xb)) (.atom c xc)) = [a, o1, b, o2, c] := by
+  have h1 : ¬ precOf o2.type < Gen.LOWEST + 1 := by omega
+  have h2 : ¬ precOf o1.type < precOf o2.type := by omega
+  simp [pr, h1, h2]
+
+/-- the RIGHT-nested tree of the same operators needs parentheses -/
+theorem C06_print_right_nested (o1 o2 lp rp a b c : Token) (xa xb xc : Expr) (h : precOf o1.type = precOf o2.type)
+    (hl : Gen.LOWEST < precOf o2.type) :
+    pr (Gen.LOWEST + 1) (.bin o1 lp rp (.atom a xa) (.bin o2 lp rp (.atom b xb) (.atom c xc))) = [a, o1, lp, b, o2, c, rp] := by
+  have h1 : ¬ precOf o1.type < Gen.LOWEST + 1 := by omega
+  have h2 : precOf o2.type < precOf o1.type + 1 := by omega
+  simp [pr, h1, h2]
+
+/-- a tighter operator on the right groups first: a o1 b o2 c with prec o1 < prec o2 is a o1 (b o2 c) -/
+theorem C06_print_tighter_right (o1 o2 lp rp a b c : Token) (xa xb xc : Expr) (h : precOf o1.type < precOf o2.type)
+    (hl : Gen.LOWEST < precOf o1.type) :
+    pr (Gen.LOWEST + 1) (.bin o1 lp rp (.atom a xa) (.bin o2 lp rp (.atom b xb) (.atom c xc))) = [a, o1, b, o2, c] := by
+  have h1 : ¬ precOf o1.type < Gen.LOWEST + 1 := by omega
+  have h2 : ¬ precOf o2.type < precOf o1.type + 1 := by omega
+  simp [pr, h1, h2]
+
+
+
+/-! non-vacuity: `1 - 2 - 3 %>` meets every hypothesis of the round trip and parses as `(1 - 2) - 3` -/
+def tI (n : UInt8) : Token := { type := .INT, lit := [n], line := 1 }
+def tMinus : Token := { type := .MINUS, lit := [45], line := 1 }
+def tStar : Token := { type := .ASTERISK, lit := [42], line := 1 }
+def tEnd : Token := { type := .E_END, lit := [37, 62], line := 1 }
+def tEOF : Token := { type := .EOF, lit := [], line := 1 }
+def sDemo : PS := { toks := #[tI 49, tMinus, tI 50, tMinus, tI 51, tEnd], eof := tEOF }
+
+def tLP : Token := { type := .LPAREN, lit := [40], line := 1 }
+def tRP : Token := { type := .RPAREN, lit := [41], line := 1 }
+def a1 : PE := .atom (tI 49) (.int (tI 49) 1)
+def a2 : PE := .atom (tI 50) (.int (tI 50) 2)
+def a3 : PE := .atom (tI 51) (.int (tI 51) 3)
+def eDemo : PE := .bin tMinus tLP tRP (.bin tMinus tLP tRP a1 a2) a3
+
+-- 1 - 2 - 3 %>   parses as (1 - 2) - 3: the hypotheses of the round-trip theorem are satisfiable
+example : parseExpression 400 Gen.LOWEST sDemo = .ok (some eDemo.toExpr, sDemo.at 4) := by
+  have hwf : eDemo.WF := by
+    refine ⟨by decide, by decide, rfl, rfl, ⟨by decide, by decide, rfl, rfl, ?_, ?_⟩, ?_⟩ <;> rfl
+  have hpr : pr (Gen.LOWEST + 1) eDemo = [tI 49, tMinus, tI 50, tMinus, tI 51] := by
+    apply C06_print_left_assoc <;> decide
+  have := parse_print eDemo sDemo 400 hwf rfl
+    (by rw [hpr]; intro k hk; rcases k with _|_|_|_|_|k <;> first | rfl | (simp at hk; omega))
+    (by rw [hpr]; decide) (by rw [hpr]; decide) (by decide)
+  rw [hpr] at this
+  exact this
+
+end Pratt
 
 end Plush
